@@ -4,4 +4,19 @@ GROUPS = [
  dict(name='dtx_step', cls='P', tu='C20_dtx.c', entry='h_dtx_step', dfcc=False, functions=['decide_dtx_mode'], timeout=300,
       what='inductive invariant over the ghost DTX run length: 200 ms start, 400 ms run bound, in-DTX predicate, activity reset'),
 ]
+for (_fs, _ch, _fr, _mb, _tier) in ((16000, 1, 1, 10, 'quick'), (48000, 2, 8, 10, 'quick'), (16000, 2, 24, 6, 'quick'), (48000, 1, 4, 3, 'quick'), (16000, 1, 2, 1, 'quick'),
+                                    (8000, 2, 16, 12, 'thorough'), (48000, 2, 2, 40, 'thorough'), (24000, 1, 8, 2, 'thorough')):
+    GROUPS.append(dict(name='frame_coder_fs%d_c%df%db%d' % (_fs, _ch, _fr, _mb), cls='B', tu='C20_frame_coder.c', entry='h_frame_coder', dfcc=False, canary='real', expect_canaries=1 + (_mb > 2), cex=False, tier=_tier,
+        ignore=[(r'(same object violation|arithmetic overflow on signed -) in (&?st->delay_buffer|pcm_buf|tmp_prefill|data)', 'OPUS_COPY/OPUS_MOVE type-check term 0*((dst)-(src)) (CBMC: pointer difference across objects / negative difference)')],
+        defines=['-DVERIF_FS=%d' % _fs, '-U__SSE__', '-DVERIF_CH=%d' % _ch, '-DVERIF_FRAME=%d' % _fr, '-DVERIF_MAXBYTES=%d' % _mb], unwind=_mb + 4, timeout=2400, mem_gb=20, cbmc_flags=['--object-bits', '10', '--no-array-field-sensitivity'],
+        replace_calls=['hp_cutoff:verif_hp_cutoff', 'dc_reject:verif_dc_reject', 'gain_fade:verif_gain_fade', 'stereo_fade:verif_stereo_fade',
+                       'celt_inner_prod_c:verif_inner_prod', 'compute_frame_energy:verif_compute_frame_energy'],
+        functions=['opus_encode_frame_native', 'decide_dtx_mode', 'gen_toc', 'compute_redundancy_bytes', 'compute_silk_rate_for_hybrid', 'ec_enc_init', 'ec_enc_bit_logp', 'ec_enc_uint', 'ec_enc_done', 'ec_enc_shrink'],
+        trusted=['ASSUMED frame contracts (stubs) of silk_Encode and celt_encode_with_ec: arbitrary results, leave the range coder in any state satisfying RI_ENC, silk_Encode writes only the output fields of the control block',
+                 'stubs for hp_cutoff, dc_reject, gain_fade, stereo_fade, celt_inner_prod, compute_frame_energy, celt_encoder_ctl, opus_packet_pad (buffer extents asserted, results arbitrary)',
+                 'FRAME_CODER_PRE and the state invariant assumed at entry: asserted at the call boundary in C11 group encode_native_decisions_*',
+                 'scratch arrays pcm_buf/tmp_prefill given a fixed capacity (requested size asserted to fit)',
+                 'copies between float sample buffers are not modelled (their content is unconstrained and unread); SILK smoothed cut-off field assumed in [0, 2^24)'],
+        bounds='Fs = %d, %d channel(s), frame of %g ms, output budget of exactly %d bytes, no surround energy mask; any encoder state satisfying the invariant, any mode the frame size allows' % (_fs, _ch, _fr * 2.5, _mb),
+        what='real opus_encode_frame_native: no user setting written, result range and exact CBR size, TOC announces duration/channels/mode, DTX counter advanced by exactly the frame duration'))
 META = {'cex': {'tu': 'C20_dtx.c', 'entry': 'h_dtx_step', 'unwind': 2, 'timeout': 300}}
